@@ -12,6 +12,7 @@ import (
 
 var monitors = map[string]func(*vk.Ctx){
 	"C12": runC12,
+	"C13": runC13,
 	"C14": runC14,
 	"C15": runC15,
 	"C16": runC16,
